@@ -4,6 +4,7 @@ import AcraModel.Sql.ExprRoundTrip
 import AcraModel.Sql.ExprSound
 import AcraModel.Sql.ExprSubst
 import AcraModel.Sql.ExprConverse
+import AcraModel.Sql.Forms
 /-!
 # C13 — re-serialised statements mean the same as the statements received
 
@@ -14,6 +15,9 @@ Part 2: the expression fragment (`Sql/Expr.lean`) – the printer `format` (no p
 nodes print them) and the precedence-climbing parser `parseExpr` over the regenerated `%left/%right` table of `sql.y`:
 every tree in the image of the parser (`Producible`) is read back from its printed form, also after any substitution of
 `SQLVal` leaves; a tree that is not producible (an operand of too low a level without its `ParenExpr`) is not.
+Part 3: statement forms (`Sql/Forms.lean`) – for every statement node the print paths of its `Format` method and the
+grammar alternatives that build it are regenerated from `ast.go` / `ast_methods.go` / `sql.y`; on every print path every
+field the grammar can fill on that path is printed (`fact_format_prints_all_fields`, `format_keeps_clauses`).
 -/
 namespace AcraModel.Props.C13
 open AcraModel AcraModel.Sql.Literal Generated.SqlLiterals
@@ -314,5 +318,105 @@ example :
   exact ⟨hp, expr_roundtrip t hp, subst_roundtrip substOk_example t hp⟩
 
 end Expr
+
+/-! ## Part 3: statement forms – no print path of a statement or clause node drops what the grammar can fill -/
+section Forms
+open AcraModel.Sql.Forms Generated.SqlForms
+
+/-- the node kinds of data-manipulation statements exist in `ast.go` (types with an `iStatement` method) -/
+theorem fact_dml_kinds_exist : ∀ k ∈ dmlKinds, k ∈ stmtKinds := by decide
+
+/-- the clause, table and expression nodes of DML statements exist in `ast.go` and the path analysis of factgen
+understands their `Format` methods -/
+theorem fact_clause_kinds_analysed : ∀ k ∈ dmlClauseKinds, k ∈ clauseKinds := by decide
+
+/-- **Every print path prints every field the grammar can fill on it** (regenerated tables). For every grammar
+alternative of `sql.y` that builds a SELECT / UNION / parenthesised SELECT / INSERT / UPDATE / DELETE node or one of
+their clause, table and expression nodes (`Limit`, `AliasedTableExpr`, `JoinTableExpr`, `ConvertType`, `CaseExpr` …)
+and every print path of the node's `Format` method that a node built by the alternative can take, each field the
+alternative may fill is printed on that path, or is a flag the path's own condition fixes (`Insert.Default` ⇒
+`default values`, `Limit.Type` ⇒ the spelling), or the path is only taken when the field is empty, or is one of the
+two documented by-design omissions (`exempt`). A `Format` that stops printing a clause on one of its paths (the
+multi-table `DELETE … USING … RETURNING …` tail printing only `WHERE`), or a grammar alternative that starts filling a
+field its print path ignores, makes this false. -/
+theorem fact_format_prints_all_fields : tableOK = true := by decide +kernel
+
+/-- every grammar alternative of these nodes has a print path it is compatible with – `Format` prints something for
+whatever the grammar builds -/
+theorem fact_every_production_has_a_path : coveredFor prods paths = true := by decide +kernel
+
+/-- the regenerated list of omissions (fields a compatible alternative may fill that the path does not represent)
+holds no DML node – what remains are the reduced forms of DDL / SHOW / PREPARE, outside the property -/
+theorem fact_no_dml_omissions : (omissions prods paths).all (fun o => !strictKinds.contains o.1) = true := by
+  decide +kernel
+
+/-- **The grammar reads no literal it then drops** (outside DDL): every token that carries a lexeme – identifier,
+number, string, placeholder – on the right-hand side of an alternative is used by the alternative's action. (The
+pinned tree had `convert_type: VARCHAR ( INTEGRAL )` dropping the length: `cast(a as varchar(10))` was re-serialised
+as `convert(a, varchar)` – repaired, repo-patches/70.) -/
+theorem fact_grammar_keeps_literals : ∀ e ∈ unusedLiteralTokens, e.1 ∈ ddlRules := by decide
+
+/-- the DELETE node has its two spellings as separate print paths, and both print RETURNING and WHERE -/
+theorem fact_delete_paths :
+    (paths.filter (·.kind == "Delete")).length ≥ 2 ∧
+    (paths.filter (·.kind == "Delete")).all (fun π => π.printed.contains "Returning" && π.printed.contains "Where") = true := by
+  decide +kernel
+
+/-- **`Format` keeps the clauses** – lifted from the finite table to all statements of the model. Let `s` be any
+DML statement or clause node (node kind + the set of its filled fields, of any size and in any order, + the constants
+some of its fields hold) that some grammar alternative `p` of the regenerated table can build, and `π` the print path
+`Format` takes for it. Then every filled field of `s` is kept on `π`: printed, or a flag fixed by the path – or it is
+one of the two documented by-design omissions. No clause is lost by the choice of the print path. -/
+theorem format_keeps_clauses (s : Stmt) (p : Prod) (π : Path) (hp : p ∈ prods) (hd : s.kind ∈ strictKinds)
+    (hb : builtBy p s = true) (hf : formatPath s = some π) :
+    ∀ f ∈ s.present, keeps π f = true ∨ exempt.contains (π.kind, f) = true :=
+  have h := formatPath_spec hf
+  keeps_of_tableOK fact_format_prints_all_fields hp h.1 hd hb h.2
+
+/-- the same for *any* path whose conditions hold (the model leaves the dialect switch and opaque conditions open,
+so several paths may apply) -/
+theorem format_keeps_clauses_any_path (s : Stmt) (p : Prod) (π : Path) (hp : p ∈ prods) (hπ : π ∈ paths)
+    (hd : s.kind ∈ strictKinds) (hb : builtBy p s = true) (ha : pathApplies π s = true) :
+    ∀ f ∈ s.present, keeps π f = true ∨ exempt.contains (π.kind, f) = true :=
+  keeps_of_tableOK fact_format_prints_all_fields hp hπ hd hb ha
+
+/-- the print paths with RETURNING removed from the printed fields of the multi-table DELETE paths -/
+private def seededPaths : List Path :=
+  paths.map fun π => if π.kind == "Delete" && π.printed.contains "Targets" then
+    { π with printed := π.printed.filter (· != "Returning") } else π
+
+/-- **The check is not vacuous**: with RETURNING dropped from the multi-table DELETE paths the finite check fails,
+and the model exhibits the statement: `DELETE FROM t USING u WHERE … RETURNING …` takes a path that no longer keeps
+its RETURNING clause. -/
+theorem seeded_change_counterexample :
+    tableOKFor prods seededPaths = false ∧
+    (let s : Stmt := ⟨"Delete", ["Targets", "TableExprs", "Where", "Returning"], []⟩
+     (prods.any fun p => builtBy p s) = true ∧
+     (seededPaths.any fun π => pathApplies π s && !keeps π "Returning") = true) := by decide +kernel
+
+/-- non-vacuity of `format_keeps_clauses`: the multi-table DELETE with WHERE and RETURNING is built by a grammar
+alternative of the table, `Format` takes the multi-table path, and that path prints all four clauses -/
+example :
+    let s : Stmt := ⟨"Delete", ["Targets", "TableExprs", "Where", "Returning"], []⟩
+    (prods.any fun p => builtBy p s) = true ∧
+    (formatPath s).map (·.idx) = some 1 ∧
+    ((formatPath s).map fun π => s.present.all (keeps π)) = some true := by decide +kernel
+
+/-- … an INSERT … DEFAULT VALUES takes the second path of `Insert.Format`, which keeps the `Default` flag -/
+example :
+    let s : Stmt := ⟨"Insert", ["Action", "Table", "Default"], [("Action", "InsertStr")]⟩
+    (prods.any fun p => builtBy p s) = true ∧
+    (formatPath s).map (·.idx) = some 1 ∧
+    ((formatPath s).map fun π => s.present.all (keeps π)) = some true := by decide +kernel
+
+/-- … and `LIMIT ALL OFFSET n` (a `Limit` with `Type = LimitTypeLimitAllAndOffset` and only `Offset` filled) takes
+the fifth path of `Limit.Format`, which prints the offset and fixes the type -/
+example :
+    let s : Stmt := ⟨"Limit", ["Offset", "Type"], [("Type", "LimitTypeLimitAllAndOffset")]⟩
+    (prods.any fun p => builtBy p s) = true ∧
+    (formatPath s).map (·.idx) = some 4 ∧
+    ((formatPath s).map fun π => s.present.all (keeps π)) = some true := by decide +kernel
+
+end Forms
 
 end AcraModel.Props.C13
